@@ -58,11 +58,15 @@ class LTransport(Transport):
     def __init__(self, log, connect_error=None, disconnect_error=None, slow=0):
         self.log, self.connect_error, self.disconnect_error, self.slow = log, connect_error, disconnect_error, slow
         self.connects = self.disconnects = 0
+        self.hang = False
 
     async def connect(self):
         self.connects += 1
         for _ in range(self.slow):
             await asyncio.sleep(0)
+        if self.hang:
+            self.log.append(("M", "connect-hangs", None))
+            await asyncio.sleep(10 ** 6)
         if self.connect_error:
             self.log.append(("M", "connect", False))
             raise self.connect_error
@@ -153,13 +157,22 @@ def run_scenario(base, sc):
     tr = LTransport(log, ConnectionError("no broker") if sc["connect_fails"] else None,
                     OSError("port gone") if sc["disconnect_fails"] else None, sc["slow"])
 
+    tr.hang = bool(sc.get("connect_hangs"))
+
+    class _NoTimeout:
+        async def __aenter__(self):
+            return self
+
+        async def __aexit__(self, *a):
+            return False
+
     async def main():
         nonlocal main_task
         main_task = asyncio.current_task()
         gw = Gateway(tr, Config(persistence_file=path))
         result["gw"] = gw
         try:
-            async with gw:
+            async with (asyncio.timeout(30) if sc.get("connect_hangs") else _NoTimeout()), gw:
                 result["inside"] = sorted(gw.nodes)
                 for i in range(sc["mutate_before"]):
                     gw.nodes[100 + i] = Node(100 + i, 17, "2.0")
@@ -208,6 +221,12 @@ def oracle(sc, r):
     e = r["exc"]
     if isinstance(e, asyncio.CancelledError):
         fs.append(("C16:exit-cancelled", "CancelledError left 'async with Gateway'"))
+    if sc.get("connect_hangs"):
+        if not isinstance(e, TimeoutError):
+            fs.append(("C16:connect-failure", f"connect was interrupted by a timeout but {type(e).__name__ if e else 'no error'} propagated"))
+        if r["tasks_left"]:
+            fs.append(("C16:connect-failure-leak", f"connect was interrupted (timeout / cancellation) and {len(r['tasks_left'])} background task(s) are still running"))
+        return fs
     if sc["connect_fails"]:
         if not isinstance(e, ConnectionError):
             fs.append(("C16:connect-failure", f"connect failed but {type(e).__name__ if e else 'no error'} propagated"))
@@ -323,6 +342,11 @@ def run(ctx, model_available=True):
                 sid += 1
                 scs.append(dict(id=sid, k=k, wait=wait, connect_fails=False, body_raises=br, disconnect_fails=False,
                                 mutate_before=1, mutate_after=1, slow=0, old=old_file))
+    for slow in (0, 1, 3):
+        for old in (old_file, None):
+            sid += 1
+            scs.append(dict(id=sid, k=0, wait=0, connect_fails=False, body_raises=False, disconnect_fails=False,
+                            mutate_before=0, mutate_after=0, slow=slow, old=old, connect_hangs=True))
     if ctx.quick:
         head = [s for s in scs if s["wait"] or s["k"] < 9]
         scs = head
@@ -349,7 +373,7 @@ def run(ctx, model_available=True):
         # model: the conclusion of C16_exit_clean for the schedule class of this run
         want_exc = "connect" if sc["connect_fails"] else ("disconnect" if sc["disconnect_fails"] else ("body" if sc["body_raises"] else "none"))
         ch = to_choices(sc, r)
-        if not aborts:
+        if not aborts and not sc.get("connect_hangs"):
             # runs in which the saver was cancelled inside a save do not expose the exact
             # number of file steps it took; all other runs are replayed exactly
             d.add(f"LC 1 0 {len(ch)} " + " ".join(ch))
